@@ -24,6 +24,7 @@ import ipaddress
 import pickle
 
 from common import W, plist, tf, rand_value, rand_block, errname
+import common
 
 MAXINT = (1 << 63) - 1
 
@@ -141,6 +142,72 @@ def gen_punctured(rng):
     return tuple(ops)
 
 
+def gen_seam(rng):
+    """both families in one set with the IPv6 integers continuing (or nearly continuing) the IPv4 integers:
+    the two families are different address spaces, so such a set is never one range, however the
+    integers line up (top of IPv4 / 2^32 in IPv6; 0.0.0.5 / ::6; a.b.c.0/24 / ::a.b.(c+1).0/120 ...)"""
+    m4 = (1 << 32) - 1
+    k = rng.random()
+    if k < 0.35:
+        hi4 = m4                                         # IPv4 part ends at 255.255.255.255
+        lo4 = hi4 - rng.choice([0, 1, 3, 7, 255, (1 << 31) - 1, m4])
+    else:
+        lo4 = rng.choice([0, 5, 0x0a000000, rng.getrandbits(32) & ~0xff])
+        hi4 = min(lo4 + rng.choice([0, 1, 3, 7, 255, 256, 1000]), m4)
+    lo6 = hi4 + 1 + rng.choice([0, 0, 0, 0, 1, -1, 2])
+    lo6 = max(lo6, 0)
+    hi6 = lo6 + rng.choice([0, 0, 1, 3, 7, 255, (1 << 32) - 1, 1000])
+    a4 = ('R', 4, lo4, hi4, 'range')
+    a6 = ('R', 6, lo6, hi6, 'range')
+    ops = []
+    if rng.random() < 0.5:
+        ops.append(('new', 0, 'list', (a4, a6) if rng.random() < 0.5 else (a6, a4)))
+    else:
+        ops += [('new', 0, 'rng', a4), ('add', 0, a6)]
+    ops.append(('new', 1, 'rng', a4 if rng.random() < 0.5 else a6))
+    ops.append(('q', 0, 1, ('N', 6, lo6, 128, 'addr')))
+    ops.append(('q', 0, 0, ('N', 4, hi4, 32, 'addr')))
+    if rng.random() < 0.5:
+        ops.append(('bin', 2, 0, 1, rng.choice(['sub', 'and', 'xor', 'or'])))
+        ops.append(('q', 2, 0, ('N', 4, lo4, 32, 'addrstr')))
+    if rng.random() < 0.3:
+        # one family emptied again: now it may be contiguous
+        ops.append(('rem', 0, a4 if rng.random() < 0.5 else a6))
+        ops.append(('q', 0, 1, ('N', 6, hi6, 128, 'addr')))
+    return tuple(ops)
+
+
+def gen_biglen(rng):
+    """IPv6 sets whose total size is around sys.maxsize while every single block is well below it
+    (several /66 ... /70 blocks, or the range 0 .. sys.maxsize-1 plus a little): len() must give the
+    total or IndexError, whatever the sizes of the members"""
+    ops = []
+    k = rng.random()
+    if k < 0.85:
+        p = rng.choice([66, 66, 67, 67, 68, 69])
+        need = 1 << (p - 65)                      # this many /p blocks hold 2^63 addresses
+        n = max(1, need + rng.choice([-1, -1, 0, 0, 1, 2]))
+        slots = rng.sample(range(0, 4 * need + 8, 2), n)      # even slots: no two blocks are siblings or adjacent
+        blks = tuple(('N', 6, s << (128 - p), p, 'net') for s in slots)
+        ops.append(('new', 0, 'list', blks))
+        if rng.random() < 0.5:
+            ops.append(('add', 0, ('N', 6, (1 << 127) + rng.getrandbits(20), 128, 'addr')))
+    else:
+        base = rng.choice([0, 1 << 64, rng.getrandbits(60) << 64])
+        hi = base + MAXINT - 1 + rng.choice([-1, 0, 0, 1])
+        ops.append(('new', 0, 'rng', ('R', 6, base, hi, 'range')))
+        if rng.random() < 0.6:
+            ops.append(('add', 0, ('N', 6, hi + rng.choice([1, 2, 3]), 128, 'addr')))
+        if rng.random() < 0.4:
+            ops.append(('add', 0, ('N', 4, rng.getrandbits(32), rng.choice([32, 31, 24]), 'net')))
+    ops.append(('new', 1, 'set', 0))
+    ops.append(('q', 0, 1, ('N', 6, 1 << 127, 128, 'addr')))
+    if rng.random() < 0.5:
+        ops.append(('rem', 0, ('N', 6, rng.getrandbits(6) << 122, rng.choice([66, 70, 128]), 'net')))
+        ops.append(('q', 0, 1, ('N', 6, 0, 128, 'addr')))
+    return tuple(ops)
+
+
 def shuffle4(rng):
     l = ['or', 'and', 'sub', 'xor']
     rng.shuffle(l)
@@ -148,8 +215,13 @@ def shuffle4(rng):
 
 
 def gen_history(rng, tier, raw=False):
-    if rng.random() < 0.25:
+    r0 = rng.random()
+    if r0 < 0.22:
         return gen_punctured(rng)
+    if r0 < 0.26:
+        return gen_seam(rng)
+    if r0 < 0.28:
+        return gen_biglen(rng)
     wins = _hot_windows(rng)
     n = rng.randrange(1, 13 if tier == 'quick' else 31)
     ops = []
@@ -308,11 +380,11 @@ def build_arg(a):
     if a[0] == 'N':
         _, ver, val, p, form = a
         if form == 'net':
-            return netaddr.IPNetwork((val, p), version=ver)
+            return common.make_net(ver, val, p)
         if form in ('str', 'cidrstr'):
             return '%s/%d' % (_addr_text(ver, val), p)
         if form == 'addr':
-            return netaddr.IPAddress(val, ver)
+            return common.make_addr(ver, val)
         if form == 'addrstr':
             return _addr_text(ver, val)
         if form == 'int':
@@ -340,7 +412,25 @@ def build_arg(a):
     raise ValueError(form)
 
 
+def scramble_returned(s):
+    """What a caller may do with a list an accessor handed out: reorder it, drop from it, append to it.
+    It is the caller's list; the set must not notice (a seeded change returned an internal cached list
+    from iter_cidrs()).  Elements are not touched: those are the set's own key objects."""
+    for get in (s.iter_cidrs, lambda: s.iter_ipranges()):
+        try:
+            l = get()
+        except Exception:
+            continue
+        if isinstance(l, list) and l:
+            l.reverse()
+            l.append(l[0])
+            l.pop(0)
+            if len(l) > 1:
+                l.pop()
+
+
 def show_set(s):
+    scramble_returned(s)
     return plist('%d:%d/%d' % (c.version, c.value, c.prefixlen) for c in s.iter_cidrs())
 
 
@@ -350,6 +440,8 @@ def _err(e):
 
 def query_obs(a, b, n, raw=False):
     from netaddr import IPNetwork
+    scramble_returned(a)
+    scramble_returned(b)
     try:
         ln = str(len(a))
     except Exception as e:
